@@ -108,6 +108,7 @@ def _explore(args):
     out = []
     n = 0
     q0, t0, b0 = E.nqueries, E.qtime, E.nbranches
+    E.bounds_seen = set()
     while stack and n < budget:
         p = stack.pop()
         try:
@@ -131,7 +132,7 @@ def _explore(args):
                     'steps': r.steps, 'checks': r.checks, 'covers': r.covers, 'kf': r.kf,
                     'violations': E.violations})
     stats = {'queries': E.nqueries - q0, 'qtime': E.qtime - t0, 'branches': E.nbranches - b0,
-             'fns': sorted(E.functions_encoded), 'models': sorted(E.models_used)}
+             'fns': sorted(E.functions_encoded), 'models': sorted(E.models_used), 'bounds': sorted(E.bounds_seen)}
     return hname, out, stack, stats
 
 
@@ -154,6 +155,7 @@ class HarnessResult:
         self.fns = set()
         self.models = set()
         self.truncated = False
+        self.bounds = set()
 
 
 def explore_harnesses(pool, names, max_paths, seed, time_budget=None):
@@ -180,6 +182,7 @@ def explore_harnesses(pool, names, max_paths, seed, time_budget=None):
             hr.transitions += stats['branches']
             hr.fns.update(stats['fns'])
             hr.models.update(stats['models'])
+            hr.bounds.update(stats['bounds'])
             for r in out:
                 hr.paths += 1
                 hr.steps += r['steps']
@@ -434,13 +437,14 @@ def run_one(pid, cfg, tier, seed, base, repo, mir, binary, listed, t_setup):
                               'solver_queries': hr.queries, 'solver_time_s': round(hr.qtime, 2),
                               'mir_steps': hr.steps, 'covers': sorted(hr.covers), 'gaps': len(hr.gaps),
                               'truncated': hr.truncated,
-                              'bounds': cfg.get('bounds', {}).get(h, '')} for h, hr in res.items()},
+                              'bounds': sorted(hr.bounds)} for h, hr in res.items()},
             'functions_encoded': sorted(set().union(*[hr.fns for hr in res.values()]) if res else []),
             'models_used': sorted(set().union(*[hr.models for hr in res.values()]) if res else []),
             'queries': sum(hr.queries for hr in res.values()),
             'solver_time_s': round(sum(hr.qtime for hr in res.values()), 2),
             'solver': solver_versions(),
-            'bounds': cfg.get('bounds_text', {}).get(tier, cfg.get('bounds_text', {}).get('quick', '')),
+            'bounds': 'per harness: the symbolic generators actually executed (tag: length range in units of the alphabet; '
+                      'choose = concrete fork); everything beyond these ranges is outside the claim',
             'outside_claim': cfg.get('outside', ''),
             'known_findings_seen': sorted(kf_seen),
             'inconclusive': {'gaps': len(gaps), 'divergences': len(divergences), 'truncated': trunc,
